@@ -671,11 +671,12 @@ class MustFacts:
 class Sem:
     """Interprets ("val", local, v) / ("variant", place, V) atoms through single-def chains."""
 
-    def __init__(self, fn: Fn):
+    def __init__(self, fn: Fn, depth=10):
         self.fn = fn
+        self.depth = depth
 
     def expr(self, l):
-        return self.fn.describe_local(l, 10)
+        return self.fn.describe_local(l, self.depth)
 
     def facts(self, atoms):
         """Translate atoms to semantic tuples:
@@ -698,10 +699,10 @@ class Sem:
                 out.add(a)
             elif a[0] == "ret":
                 t = self.fn.blocks[a[1]]["t"]
-                e = ("call", t.get("callee"), tuple(self.fn.describe(x, 9) for x in t["args"]), a[1])
+                e = ("call", t.get("callee"), tuple(self.fn.describe(x, self.depth - 1) for x in t["args"]), a[1])
                 self._val(e, a[2], out, 0)
             elif a[0] == "def":
-                e = self.fn._describe_def(("s", a[1], a[2]), 9)
+                e = self.fn._describe_def(("s", a[1], a[2]), self.depth - 1)
                 self._val(e, a[3], out, 0)
         return out
 
